@@ -7,16 +7,41 @@ use rustyline::error::ReadlineError;
 use rustyline::Editor;
 
 fn check_bracket_closed(chars: impl Iterator<Item = char>) -> bool {
+    // count parentheses the way the reader sees them: not inside comments, strings,
+    // |quoted identifiers| or #\x character literals
+    enum State {
+        Code,
+        Comment,
+        Str,
+        StrEscape,
+        Bar,
+        Sharp,
+        Character,
+    }
     let mut count = 0;
-    let mut in_comment = false;
+    let mut state = State::Code;
     for c in chars {
-        match (c, in_comment) {
-            ('(', false) => count += 1,
-            (')', false) => count -= 1,
-            (';', false) => in_comment = true,
-            ('\n', true) => in_comment = false,
-            _ => (),
-        }
+        state = match (state, c) {
+            (State::Code, '(') | (State::Sharp, '(') => {
+                count += 1;
+                State::Code
+            }
+            (State::Code, ')') => {
+                count -= 1;
+                State::Code
+            }
+            (State::Code, ';') => State::Comment,
+            (State::Code, '"') => State::Str,
+            (State::Code, '|') => State::Bar,
+            (State::Code, '#') => State::Sharp,
+            (State::Comment, '\n') | (State::Comment, '\r') => State::Code,
+            (State::Str, '"') | (State::Bar, '|') => State::Code,
+            (State::Str, '\\') => State::StrEscape,
+            (State::StrEscape, _) => State::Str,
+            (State::Sharp, '\\') => State::Character,
+            (State::Sharp, _) | (State::Character, _) => State::Code,
+            (state, _) => state,
+        };
     }
     count <= 0
 }
